@@ -339,10 +339,14 @@ class C06(ReduceProp):
                 c.vals = [v if (isinstance(v, float) and v != v) else float(rng.choice([-1, 2, 2, 2])) for v in c.vals]
             else:
                 c.vals = [rng.choice([-1, 2, 2, 2]) for _ in c.vals]
-            if c.dtype == "int64" and rng.random() < 0.4:
+            if c.dtype == "int64" and rng.random() < 0.5:
                 # integers beyond 2**53: neighbouring values are distinct as int64 but collide as float64
                 base = rng.choice([2**60, -(2**60), 2**55])
                 c.vals = [base + rng.choice([0, 1, 2, 3]) for _ in c.vals]
+                if c.func in ARG and len(c.vals) >= 3 and rng.random() < 0.7:
+                    # one strict extreme late in the array, near-equal values before it
+                    j = rng.randrange(len(c.vals) // 2, len(c.vals))
+                    c.vals[j] = base + (5 if "max" in c.func else -5)
             if c.chunks is not None:
                 c.chunks = gen_chunks(rng, len(c.vals), rng.choice(["ones", "single", "random", "random"]))
             if legal(c):
